@@ -459,9 +459,9 @@ def render_def(prog, i, skip_names=()):
         L += ["def deco_%s(fn):" % nd["name"], "    @functools.wraps(fn)",
               "    def wrapper(%s, *rest, **kw):" % wp, "        return fn(%s, *rest, **kw)" % wp, "    return wrapper", "",
               "@deco_%s" % nd["name"]]
-    if nd.get("prev"):
-        L += ["def %s(x):" % nd["name"], "    REC.hit(%r, x)" % (nd["name"] + "_old"), "    return x * 2 + %d" % nd["prev"]["const"], "",
-              "%s_old = %s" % (nd["name"], nd["name"]), ""]
+    if nd.get("prev"):  # (the earlier definition comes before the decorators of the current one)
+        L[0:0] = ["def %s(x):" % nd["name"], "    REC.hit(%r, x)" % (nd["name"] + "_old"), "    return x * 2 + %d" % nd["prev"]["const"], "",
+                  "%s_old = %s" % (nd["name"], nd["name"]), ""]
     L.append("def %s(%s):" % (nd["name"], ", ".join(ps)))
     L.append("    REC.hit(%r, %s)" % (nd["name"], ", ".join(names)))
     first = ("x %s %d" % (nd["op"], nd["const"])) if not nd["swap"] else ("%d %s x" % (nd["const"], nd["op"]))
@@ -497,6 +497,10 @@ def render_def(prog, i, skip_names=()):
         L.append("    r += %s" % duse(p, d))
     for late in nd.get("late", []):
         L += ["    if x < -1000:", "        r += %s(x)" % late]  # referenced, never executed
+    if nd.get("late_glob"):  # a global of this module that is bound only at the end of the module, named like an attribute module a lacks
+        L += ["    if x < -1000:", "        r += a.%s(x)" % nd["late_glob"], "        r += %s(x)" % nd["late_glob"]]
+    for late in nd.get("late_both", []):  # (module b) the same name as a global of this module and as an attribute of module a
+        L += ["    if x < -1000:", "        r += %s(x)" % late, "        r += a.%s(x)" % late]
     L.append("    return r")
     return "\n".join(L) + "\n"
 
@@ -748,6 +752,16 @@ def apply_special(rng, prog, kind):
     cand = list(range(len(nodes)))
     rng.shuffle(cand)
     if kind == "late_ref":
+        both = [i for i in cand if nodes[i]["mod"] == "b" and nodes[i]["kind"] in ("memento", "plain")]
+        if both and rng.random() < 0.4:
+            # a function of module b names the symbol twice: as a global of its own module (never defined) and as an
+            # attribute of module a (defined later)
+            i = both[0]
+            name = "late_%d" % (p["serial"] + len(nodes))
+            p["serial"] += 1
+            nodes[i].setdefault("late_both", []).append(name)
+            desc.update(node=i, changed_defs=[i], late=name)
+            return p, desc
         cand = [i for i in cand if nodes[i]["mod"] == "a"]  # module a cannot name anything of module b
         if not cand:
             return None
@@ -759,9 +773,10 @@ def apply_special(rng, prog, kind):
         return p, desc
     if kind == "late_def":
         for i in cand:
-            for name in nodes[i].get("late", []):
+            for name in nodes[i].get("late", []) + nodes[i].get("late_both", []):
                 if not any(nd["name"] == name for nd in nodes):
-                    nodes.append({"name": name, "mod": nodes[i]["mod"], "kind": rng.choice(["memento", "plain"]),
+                    nodes.append({"name": name, "mod": "a" if name in nodes[i].get("late_both", []) else nodes[i]["mod"],
+                                  "kind": rng.choice(["memento", "plain"]),
                                   "version": None, "params": [["x", None]], "kwonly": [], "const": rng.randint(1, 9),
                                   "tconst": None, "sconst": None, "op": "+", "nested": None, "reads": [], "calls": [],
                                   "wrap_param": None, "swap": False})
